@@ -9,7 +9,10 @@ import (
 func init() {
 	props["C01"] = func(c *Collector, tier string, seed int64) { runSched(c, "C01", tier, seed) }
 	props["C02"] = func(c *Collector, tier string, seed int64) { runSched(c, "C02", tier, seed) }
-	props["C03"] = func(c *Collector, tier string, seed int64) { runSched(c, "C03", tier, seed) }
+	props["C03"] = func(c *Collector, tier string, seed int64) {
+		runSched(c, "C03", tier, seed)
+		runC03Cancelled(c, tier, seed)
+	}
 	props["C04"] = func(c *Collector, tier string, seed int64) { runSched(c, "C04", tier, seed) }
 }
 
@@ -323,6 +326,53 @@ func runSched(col *Collector, focus, tier string, seed int64) {
 		}
 		add(cfg, "cancel", 0.3, cancelAt)
 	}
-	parallel(len(plans), 16, func(i int) { schedCase(col, focus, plans[i], tags[i]) })
+	// a share of the plans runs with no pause at all between passes (goroutine start-up latency > polling period)
+	ntight := 0
+	for i, p := range plans {
+		if tags[i] != "cancel" && p.cfg.n <= 4 && i%9 == int(seed%9+9)%9 && ntight < 120 {
+			p.tight = true
+			ntight++
+		}
+	}
+	parallel(len(plans), 16, func(i int) {
+		t := tags[i]
+		if plans[i].tight {
+			t += "+tight-loop"
+		}
+		schedCase(col, focus, plans[i], t)
+	})
 	col.res.Exhaustive = true
+}
+
+// cancelled runs with the REAL TaskRunner (child processes): "if the run is cancelled - by the caller or
+// because a stage condition could not be evaluated - it still returns", with 0, 1 or several tasks in flight
+func runC03Cancelled(col *Collector, tier string, seed int64) {
+	rng := rand.New(rand.NewSource(seed + 77))
+	var scs []cancelScenario
+	for _, sc := range genCancelScenarios(tier, rng) {
+		if sc.Mode != "runner" {
+			scs = append(scs, sc)
+		}
+	}
+	// a second cancellation after a refused run, and a run after a failed context set-up: histories
+	scs = append(scs, cancelScenario{Mode: "sched-twice-conderr", Inflight: 1, Waiting: 1, Point: "in-command"})
+	col.res.Rule += "; plus real-TaskRunner pipelines in child processes: Scheduler.Cancel and condition errors with 0..4 tasks in flight x 0..3 waiting"
+	parallel(len(scs), 12, func(i int) {
+		sc := scs[i]
+		if sc.Mode == "sched-twice-conderr" {
+			sc.Mode = "sched-conderr"
+		}
+		obs, exit, stderr, to := runCancelScenario(sc)
+		cs := Case{Replay: "cancelled-run " + sc.String(), Tags: []string{"real-runner", "mode=" + sc.Mode, fmt.Sprintf("inflight=%d", sc.Inflight)}}
+		cs.NonTrivial = sc.Inflight+sc.Waiting > 0
+		fail, sig := cancelVerdict(sc, obs, exit, stderr, to)
+		switch sig {
+		case "c12-panic", "c12-hang", "c12-cancel-blocks", "c12-run-blocks", "c12-cancel-twice":
+			cs.Fail, cs.Sig = "cancelled pipeline run did not return: "+fail, "c03-cancelled-no-return"
+		case "":
+		default:
+			col.Note("other-monitor C12: %s", sig)
+		}
+		col.Add(cs)
+	})
 }
